@@ -212,7 +212,11 @@ func (u *Unit) eventArr(ev *havocEvent, key string, prev *Term) *Term {
 		_, vs := prev.Sort.arrayParts()
 		for _, l := range ev.frame.Leaves {
 			if l.Sort == vs {
-				conds = append(conds, c.Neq(r, l.Addr))
+				if l.Cond != nil {
+					conds = append(conds, c.Not(c.And(l.Cond, c.Eq(r, l.Addr))))
+				} else {
+					conds = append(conds, c.Neq(r, l.Addr))
+				}
 			}
 		}
 	}
